@@ -83,28 +83,71 @@ func c04Spell(asList bool, kv [][2]string) any {
 	return m
 }
 
-// VerifC04KeyValue: KEY=VALUE attributes merge by key whichever spelling either side uses.
+// VerifC04KeyValue: KEY=VALUE attributes merge by key whichever spelling either side uses - every attribute the
+// schema declares as list-or-mapping of key/value pairs, on services (also below build and deploy) and on networks,
+// volumes, secrets and configs.
 func VerifC04KeyValue() {
-	attrs := []string{"environment", "labels", "annotations", "sysctls"}
-	attr := attrs[vrtChoice("attr", len(attrs))]
+	sites := [][]string{{"services", "environment"}, {"services", "labels"}, {"services", "annotations"}, {"services", "sysctls"},
+		{"services", "build", "args"}, {"services", "build", "labels"}, {"services", "deploy", "labels"}, {"services", "build", "ssh"},
+		{"networks", "labels"}, {"volumes", "labels"}, {"secrets", "labels"}, {"configs", "labels"}}
+	site := sites[vrtChoice("attr", len(sites))]
 	v1, v2, v3 := c04Val("v1"), c04Val("v2"), c04Val("v3")
 	baseList := vrtChoice("baseList", 2) == 1
 	overList := vrtChoice("overList", 2) == 1
-	base := c04Doc(attr, c04Spell(baseList, [][2]string{{"K", v1}, {"B", v3}}))
-	over := c04Over(attr, c04Spell(overList, [][2]string{{"K", v2}, {"N", v1}}))
+	mk := func(first bool, val any) map[string]any {
+		// the attribute at its place below the section's entry `s`; the first file also carries what the entry needs
+		var inner any = val
+		for i := len(site) - 1; i >= 1; i-- {
+			inner = map[string]any{site[i]: inner}
+		}
+		entry := inner.(map[string]any)
+		doc := map[string]any{"services": map[string]any{"s": map[string]any{}}}
+		if first {
+			doc["services"].(map[string]any)["s"].(map[string]any)["image"] = "i"
+		}
+		switch site[0] {
+		case "services":
+			for k, e := range entry {
+				doc["services"].(map[string]any)["s"].(map[string]any)[k] = e
+			}
+			if first && site[1] == "build" {
+				entry["build"].(map[string]any)["context"] = "/ctx"
+			}
+		default:
+			if first && (site[0] == "secrets" || site[0] == "configs") {
+				entry["file"] = "/f"
+			}
+			doc[site[0]] = map[string]any{"s": entry}
+		}
+		return doc
+	}
+	fetch := func(m map[string]any) any {
+		var cur any = m[site[0]].(map[string]any)["s"]
+		for _, k := range site[1:] {
+			mm, _ := cur.(map[string]any)
+			cur = mm[k]
+		}
+		return cur
+	}
+	base := mk(true, c04Spell(baseList, [][2]string{{"K", v1}, {"B", v3}}))
+	over := mk(false, c04Spell(overList, [][2]string{{"K", v2}, {"N", v1}}))
 	m, err := tcLoad(nil, nil, base, over)
 	vrtObserve("err", err != nil)
-	vrtAssert("loads", err == nil)
+	cls := site[0]
+	for _, k := range site[1:] {
+		cls += "." + k
+	}
+	vrtAssert("loads#"+cls, err == nil)
 	if err != nil {
 		return
 	}
-	got, ok := c04KV(tcSvc(m, "s")[attr])
-	vrtAssert("kv-shape", ok)
+	got, ok := c04KV(fetch(m))
+	vrtAssert("kv-shape#"+cls, ok)
 	vrtObserve("got", got)
-	vrtAssert("later-wins", got["K"] == v2)
-	vrtAssert("base-kept", got["B"] == v3)
-	vrtAssert("new-added", got["N"] == v1)
-	vrtAssert("no-extra", len(got) == 3)
+	vrtAssert("later-wins#"+cls, got["K"] == v2)
+	vrtAssert("base-kept#"+cls, got["B"] == v3)
+	vrtAssert("new-added#"+cls, got["N"] == v1)
+	vrtAssert("no-extra#"+cls, len(got) == 3)
 }
 
 // VerifC04Scalar: scalars are replaced; what the override does not mention is preserved.
